@@ -29,6 +29,8 @@ PROGRAMS = ("suite_programs", {"n": {"quick": 400, "thorough": 8000}})
 
 CODEC = ("suite_codec", {"n": {"quick": 240, "thorough": 5000}})
 
+RPC = ("suite_rpc", {"n": {"quick": 100, "thorough": 2500}})
+
 NOT_CLAIMED = {}
 
 CORE_NOTE = ("Trusted: Lean kernel; the hand-written generic oracle model (Ktm/Core.lean: create/update/endT over an arbitrary "
@@ -211,4 +213,15 @@ PROPS = {
                           "'equal in every observable respect' for implementation objects (defaults, value lists, transforms, activity, best values) is "
                           "evaluated by the suite's monitors on reloaded objects, not proved; from_config mutates the dict it is given (harmless, noted).",
             "assumptions": ["json module; dict ordering"]},
+    "C16": {"suites": [RPC],
+            "level_text": "Theorems (Ktm/Props/C16.lean): values are not retyped by the message; for ANY regrouping of a parents-first space the decoder "
+                          "returns a permutation in parents-first order (never needing its fallback); the chief's exit condition and the client-set "
+                          "bookkeeping (a worker leaves the set exactly when told STOPPED). Observational equivalence of whole request sequences is "
+                          "decided by the `rpc` suite: each scenario is run directly and through OracleClient -> real protobuf bytes -> OracleServicer on "
+                          "identically built oracles and every answer, status, value (typed), score (single precision), metric history, best-trial "
+                          "list and the chief's own state are compared.",
+            "level_note": "partial: the layer's transparency is established by differential runs (direct vs. remote), the theorems cover the codec's ordering "
+                          "and typing and the exit condition only; float32 rounding and gRPC itself are not modelled (the transport is in-process but "
+                          "serialises every message). Known findings F19 (Trial.message has no proto field) and F14-rpc.",
+            "assumptions": ["protobuf wire encoding"]},
 }
